@@ -645,6 +645,33 @@ impl<'a> Speller<'a> {
         out
     }
 
+    /// A form body is not a URL: bytes that could not travel unescaped in a request target (`#`, `"`, `<`, `>`, `[`,
+    /// `]`, `{`, `}`, `|`, `\`, `^`, `` ` ``) may stand for themselves there. Re-spell some escapes of such bytes as the
+    /// byte itself.
+    pub fn body_literals(&mut self, q: Vec<u8>) -> Vec<u8> {
+        if self.level == 0 {
+            return q;
+        }
+        let mut out = Vec::with_capacity(q.len());
+        let mut i = 0;
+        while i < q.len() {
+            if q[i] == b'%' && i + 2 < q.len() + 0 && i + 2 <= q.len() - 1 {
+                let hv = |c: u8| (c as char).to_digit(16);
+                if let (Some(a), Some(b)) = (hv(q[i + 1]), hv(q[i + 2])) {
+                    let c = (a * 16 + b) as u8;
+                    if b"#\"<>[]{}|\\^`".contains(&c) && self.r.chance(1, 2) {
+                        out.push(c);
+                        i += 3;
+                        continue;
+                    }
+                }
+            }
+            out.push(q[i]);
+            i += 1;
+        }
+        out
+    }
+
     /// A query string for the pairs, in a random admissible order and spelling.
     pub fn query(&mut self, pairs: &Pairs) -> Vec<u8> {
         let mut idx: Vec<usize> = (0..pairs.len()).collect();
@@ -879,7 +906,10 @@ pub fn render(l: &Logical, cfg: &Cfg, sp: &mut Speller, ov: &Overrides) -> (Wire
     // body bytes
     let body: Vec<u8> = match (&ov.body_override, &l.form_pairs) {
         (Some(b), _) => b.clone(),
-        (None, Some(fp)) => sp.query(fp),
+        (None, Some(fp)) => {
+            let q = sp.query(fp);
+            sp.body_literals(q)
+        }
         (None, None) => l.body.clone(),
     };
     let folded = cfg.fold && l.form_pairs.is_some() && is_form(&l.content_type);
